@@ -297,11 +297,12 @@ func (cf *compactFlusher) StreamWriter() (table.StreamWriter, error) {
 	if err := cf.beforeAdd(); err != nil {
 		return nil, err
 	}
-	sw := cf.compactJob.state.builder.StreamWriter()
+	builder := cf.compactJob.state.builder
 	// hooks stream writer with compaction processing checkers
 	cf.streamWriter = &compactFlusherStreamWriter{
 		compactFlusher: cf,
-		StreamWriter:   sw,
+		builder:        builder,
+		StreamWriter:   builder.StreamWriter(),
 	}
 	return cf.streamWriter, nil
 }
@@ -359,14 +360,42 @@ func (cf *compactFlusher) Release() {
 	panic("Release is not allowed to call for CompactFlusher")
 }
 
-// compactFlusherStreamWriter wraps stream writer with write check
+// compactFlusherStreamWriter wraps stream writer with write check.
+// The merger keeps this writer for all keys, but the output file is finished(and a new one is opened)
+// when it is big enough, so the writer must follow the current output file.
 type compactFlusherStreamWriter struct {
 	compactFlusher *compactFlusher
+	builder        table.Builder // builder which the embedded stream writer belongs to
+	err            error         // error when opening next output file
 	table.StreamWriter
+}
+
+// Prepare prepares writing a new key, opens next output file if previous one is finished.
+func (cfsw *compactFlusherStreamWriter) Prepare(key uint32) {
+	cfsw.err = cfsw.compactFlusher.beforeAdd()
+	if cfsw.err != nil {
+		return
+	}
+	if builder := cfsw.compactFlusher.compactJob.state.builder; builder != cfsw.builder {
+		cfsw.builder = builder
+		cfsw.StreamWriter = builder.StreamWriter()
+	}
+	cfsw.StreamWriter.Prepare(key)
+}
+
+// Write writes the data of current key.
+func (cfsw *compactFlusherStreamWriter) Write(data []byte) (int, error) {
+	if cfsw.err != nil {
+		return 0, cfsw.err
+	}
+	return cfsw.StreamWriter.Write(data)
 }
 
 // Commit checks if build's file if it is big enough
 func (cfsw *compactFlusherStreamWriter) Commit() error {
+	if cfsw.err != nil {
+		return cfsw.err
+	}
 	// table's StreamWriter Commit won't raise error
 	_ = cfsw.StreamWriter.Commit()
 	return cfsw.compactFlusher.afterAdd()
